@@ -577,9 +577,9 @@ def generic_map(n, at):
 
         return elem
     j = c.fresh("gj", z3.IntSort())
-    a0, f0 = len(c.aux), c.nforks
+    a0, f0 = len(c.aux), c.branchings
     r = at(j)
-    if c.nforks != f0:
+    if c.branchings != f0:
         c.unsupported_here("data-dependent branch inside a vectorised function")
     new_aux = c.aux[a0:]
     del c.aux[a0:]
